@@ -2,7 +2,10 @@ package chain
 
 import (
 	"fmt"
+	"runtime/debug"
 	"time"
+
+	abci "github.com/cometbft/cometbft/abci/types"
 
 	sdk "github.com/cosmos/cosmos-sdk/types"
 	authtypes "github.com/cosmos/cosmos-sdk/x/auth/types"
@@ -319,17 +322,31 @@ func (w *World) ActSlash(t *rapid.T) {
 	v := pick(t, "validator", w.Validators)
 	frac := sdk.NewDecWithPrec(int64(rapid.SampledFrom([]int{1, 5, 33, 50}).Draw(t, "slashPct")), 2)
 	ts := w.C.TS
-	w.C.Logf("slash(validator %s, %s)", short8(v.Addr.String()), frac)
+	// A validator is slashed by the slashing / evidence modules in BeginBlock, and the dualstaking
+	// BeginBlocker (HandleSlashedValidators) runs later in the SAME BeginBlock (module order in
+	// app.go: ... slashing, evidence, dualstaking ...), so no transaction can ever see the state
+	// between the slash and the re-balancing. Model exactly that: start a new block, then slash
+	// through the slashing keeper and run the dualstaking BeginBlocker at once. A panic in either is
+	// a panic in BeginBlock, i.e. a chain halt.
+	if !w.C.AdvanceBlock(0) {
+		return
+	}
+	val, found := ts.Keepers.StakingKeeper.GetValidator(ts.Ctx, sdk.ValAddress(v.Addr))
+	if !found || val.IsUnbonded() || val.Tokens.IsZero() {
+		w.C.Logf("slash(validator %s) skipped: validator cannot be slashed", short8(v.Addr.String()))
+		return
+	}
+	w.C.Logf("BeginBlock: slash(validator %s, %s) + dualstaking BeginBlocker", short8(v.Addr.String()), frac)
 	func() {
 		defer func() {
 			if r := recover(); r != nil {
-				w.C.Logf("slash panicked (ignored, evidence handling is outside the lava modules): %v", r)
+				w.C.Halt = fmt.Sprintf("panic in BeginBlock (validator slash + dualstaking BeginBlocker) at height %d: %v\n%s", w.C.Height(), r, debug.Stack())
 			}
 		}()
-		val := ts.GetValidator(v.Addr)
 		power := val.ConsensusPower(ts.Keepers.StakingKeeper.PowerReduction(ts.Ctx))
 		consAddr, _ := val.GetConsAddr()
-		ts.Keepers.StakingKeeper.Slash(ts.Ctx, consAddr, ts.Ctx.BlockHeight(), power, frac)
+		ts.Keepers.SlashingKeeper.Slash(ts.Ctx, consAddr, frac, power, ts.Ctx.BlockHeight())
+		ts.Keepers.Dualstaking.BeginBlock(ts.Ctx, abci.RequestBeginBlock{})
 	}()
 }
 
